@@ -82,7 +82,41 @@ impl Oneshot {
     pub async fn resolved(self) -> (r: core::result::Result<Response<Bytes>, Infallible>) ensures r is Ok, r->Ok_0 == handler_reply(self.req@) { unimplemented!() }
 }
 #[verifier::external_body] pub fn select_nondet() -> (r: bool) { unimplemented!() }
+#[verifier::external_body] pub fn select_arm() -> (r: u8) { unimplemented!() }
 pub struct OutboundRequestLayer;
+// ---------- the per-connection accept loop (request_handler.rs InboundRequestHandler::start) ----------
+pub struct ActivePeers;
+// an error that the CONNECTION reported (quinn::ConnectionError): the only thing that may end the accept loop
+pub uninterp spec fn from_connection(e: Error, c: Connection) -> bool;
+impl Connection {
+    #[verifier::external_body]
+    pub async fn accept_bi(&self) -> (r: Result<(SendStream, RecvStream)>)
+        ensures r is Ok ==> r->Ok_0.0.pair == r->Ok_0.1.pair && r->Ok_0.0.o@.len() == 0 && !r->Ok_0.0.finished@, r is Err ==> from_connection(r->Err_0, *self) { unimplemented!() }
+    #[verifier::external_body]
+    pub async fn accept_uni_stream(&self) -> (r: Result<RecvStream>) ensures r is Err ==> from_connection(r->Err_0, *self) { unimplemented!() }
+    #[verifier::external_body]
+    pub async fn read_datagram(&self) -> (r: Result<Bytes>) ensures r is Err ==> from_connection(r->Err_0, *self) { unimplemented!() }
+}
+// tokio::task::JoinSet of handler tasks: `spawned` is the ghost log of every task ever spawned, each one being `handle()` run on that handler
+pub struct HandleTask { pub h: BiStreamRequestHandler }
+pub struct JoinSet { pub spawned: Ghost<Seq<BiStreamRequestHandler>> }
+// a task ends normally, is cancelled, or panics: tokio's JoinError is one of the latter two
+pub struct JoinError { pub cancelled: bool }
+pub struct PanicPayload;
+impl JoinError {
+    #[verifier::external_body] pub fn is_cancelled(&self) -> (r: bool) ensures r == self.cancelled { unimplemented!() }
+    #[verifier::external_body] pub fn is_panic(&self) -> (r: bool) ensures r == !self.cancelled { unimplemented!() }
+    #[verifier::external_body] pub fn into_panic(self) -> (r: PanicPayload) { unimplemented!() }
+}
+#[verifier::external_body] pub fn resume_unwind(p: PanicPayload) -> ! { unimplemented!() }
+// `panic!(..)`: must be unreachable
+#[verifier::external_body] pub fn explicit_panic() -> ! requires false { unimplemented!() }
+impl JoinSet {
+    #[verifier::external_body]
+    pub fn spawn(&mut self, t: HandleTask) ensures final(self).spawned@ == old(self).spawned@.push(t.h) { unimplemented!() }
+    #[verifier::external_body]
+    pub async fn join_next(&mut self) -> (r: Option<core::result::Result<(), JoinError>>) ensures final(self).spawned == old(self).spawned { unimplemented!() }
+}
 '''
 
 
@@ -107,6 +141,101 @@ def select_standin(e):
     repl = 'if select_nondet() { let %s = %s; %s } else { let %s = %s; %s }' % (p1, aw(f1), e1.strip(), ('_unused' if p2 == '_' else p2), aw(f2), e2.strip())
     e.text = t[:m.start()] + repl + t[c + 1:]
     e.log('X4', 'tokio::select! with 2 arms replaced by a nondeterministic choice between them')
+
+
+def _select_arms(inner):
+    """[(pattern, future expression, body)] of a tokio::select! body"""
+    mask = code_mask(inner)
+    arms, i, n = [], 0, len(inner)
+
+    def top_level_find(start, pred):
+        k = start
+        while k < n:
+            if mask[k] and inner[k] in '([{':
+                k = match_delim(inner, mask, k) + 1
+                continue
+            if mask[k] and pred(k):
+                return k
+            k += 1
+        return -1
+    while True:
+        while i < n and (not mask[i] or inner[i].isspace() or inner[i] == ','):
+            i += 1
+        if i >= n:
+            break
+        arrow = top_level_find(i, lambda k: inner.startswith('=>', k))
+        if arrow < 0:
+            raise AnchorLost('select! arm without `=>`')
+        head = inner[i:arrow]
+        hm = code_mask(head)
+        eq = -1
+        k = 0
+        while k < len(head):
+            if hm[k] and head[k] in '([{':
+                k = match_delim(head, hm, k) + 1
+                continue
+            if hm[k] and head[k] == '=' and head[k + 1:k + 2] not in ('=', '>') and head[k - 1:k] not in ('=', '!', '<', '>'):
+                eq = k
+                break
+            k += 1
+        if eq < 0:
+            raise AnchorLost('select! arm without `pattern = future`')
+        pat, fut = head[:eq].strip(), head[eq + 1:].strip()
+        j = arrow + 2
+        while j < n and inner[j].isspace():
+            j += 1
+        if j < n and inner[j] == '{':
+            c = match_delim(inner, mask, j)
+            body = inner[j:c + 1]
+            i = c + 1
+        else:
+            c = top_level_find(j, lambda k: inner[k] == ',')
+            c = n if c < 0 else c
+            body = '{ ' + inner[j:c].strip() + ' }'
+            i = c + 1
+        arms.append((pat, fut, body))
+    return arms
+
+
+def accept_loop_standin(key, props):
+    """X4 for a select! loop: `loop { tokio::select! { p1 = f1 => b1, ... } }` becomes a loop over a nondeterministic choice of arm; the chosen
+    arm awaits its own future (a refutable pattern that does not match disables the arm, as in tokio).  `break e` (the value of the loop
+    is what the lifted function returns) becomes `return e`.  Inserts the per-iteration ghost snapshot and the two loop-level obligations."""
+    def tr(e):
+        e.replace_macro('panic', 'explicit_panic()')
+        t = e.text
+        m = re.search(r'tokio::select!\s*\{', t)
+        if not m:
+            raise AnchorLost('%s: no tokio::select! in the accept loop' % key)
+        mask = code_mask(t)
+        o = m.end() - 1
+        c = match_delim(t, mask, o)
+        arms = _select_arms(t[o + 1:c])
+        waits = []
+        out = ['match select_arm() {']
+        for k, (pat, fut, body) in enumerate(arms):
+            bm = code_mask(body)
+            if any(bm[x.start()] for x in re.finditer(r'\.await\b', body)):
+                waits.append(k)
+            sel = '%d' % k if k < len(arms) - 1 else '_'
+            if re.match(r'^[a-z_][A-Za-z0-9_]*$', pat):
+                out.append('            %s => { let %s = %s.await; %s }' % (sel, pat if pat != '_' else '_unused', fut, body))
+            else:
+                out.append('            %s => { if let %s = %s.await %s }' % (sel, pat, fut, body))
+        out.append('        }')
+        verdict = ('if select_nondet() { assert(false); }' if waits else 'assert(true);')
+        out.append('        %s // @OBL %s::arms_do_not_wait [%s] @CONFIRM between two rounds of accepting streams the loop never waits on anything (no await inside an arm of the select): a silent stream or a slow handler cannot keep the connection\'s other streams from being accepted%s'
+                   % (verdict, key, ','.join(props), (' -- arm(s) %s of the select await inside their body' % waits) if waits else ''))
+        out.append('        assert(inflight_requests.spawned@.len() <= pre.len() + 1); // @OBL %s::at_most_one_task_per_round [C02,C06] one round of the loop spawns at most one handler task' % key)
+        t = t[:m.start()] + '\n        '.join(out) + t[c + 1:]
+        t2, nb = re.subn(r'\bbreak\s+([^;{}]+);', r'return \1;', t)
+        t3, nl = re.subn(r'let\s+close_reason\s*=\s*loop\s*\{', 'loop {\n            let ghost pre = inflight_requests.spawned@;', t2, count=1)
+        if not nl:
+            raise AnchorLost('%s: the loop is no longer bound to close_reason' % key)
+        # `loop { .. };` was a let statement: drop the `;` that closed it and the tail expression is unreachable
+        e.text = t3
+        e.log('X4', 'tokio::select! with %d arms replaced by a nondeterministic choice; `break e` -> `return e` (x%d); ghost snapshot per round' % (len(arms), nb))
+    return tr
 
 
 def build(C):
@@ -208,4 +337,26 @@ def build(C):
         true, // @OBL BiStreamRequestHandler::handle::swallows_errors [C06] a failed exchange ends this stream's task normally: the error is swallowed here (no panic, nothing propagates to the connection or the network)
 ''')
     t += '}\n'
+    # ---- the per-connection accept loop ---------------------------------------------------------------------------
+    t += C.item(RH, 'struct InboundRequestHandler', derives=False, rewrites=[
+        dict(rule='X5', pattern='BoxCloneService<Request<Bytes>, Response<Bytes>, Infallible>', repl='Svc', optional=True), dict(rule='X5', pattern='Arc<Config>', repl='Config', optional=True)])
+    KEY = 'InboundRequestHandler::start::accept_loop'
+    t += C.lifted(RH, 'impl InboundRequestHandler :: fn start', KEY, ['C06', 'C02', 'C09'], anchor='let close_reason = loop', kind='stmt',
+                  name='inbound_request_handler_accept_loop', is_async=True, attrs='#[verifier::exec_allows_no_decreases_clause]\n',
+                  params='this: &InboundRequestHandler, inflight_requests: &mut JoinSet', ret_ty='Error', ret='close_reason',
+                  rewrites=[dict(rule='X10', pattern='self.', repl='this.'), dict(rule='X10', pattern='Self::', repl='InboundRequestHandler::', optional=True), dict(rule='X5', pattern='this.connection.accept_uni()', repl='this.connection.accept_uni_stream()', optional=True),
+                            dict(rule='X5', pattern='std::panic::resume_unwind', repl='resume_unwind', optional=True),
+                            dict(rule='X5', pattern='request_handler.handle()', repl='HandleTask { h: request_handler }', optional=True)],
+                  transforms=[accept_loop_standin(KEY, ['C06'])],
+                  inserts=[('X6', 'Ok((bi_tx, bi_rx)) => {', ' let ghost tx0 = bi_tx; let ghost rx0 = bi_rx;', 'after', False),
+                           ('X6', 'inflight_requests.spawn(HandleTask { h: request_handler });', 'let ghost h0 = request_handler;\n                            ', 'before', False),
+                           ('X6', 'inflight_requests.spawn(HandleTask { h: request_handler });', '''
+                            assert(inflight_requests.spawned@ == pre.push(h0) && h0.send_stream.inner == tx0 && h0.recv_stream.inner == rx0 && h0.recv_stream.buffered@.len() == 0); // @OBL InboundRequestHandler::start::accept_loop::one_handler_per_accepted_stream [C02,C06] every accepted bidirectional stream is handed to exactly one new handler task, which serves exactly the two halves of that stream
+                            assert(h0.connection == this.connection && h0.service == this.service); // @OBL InboundRequestHandler::start::accept_loop::handler_bound_to_connection_and_service [C01,C02] that handler attributes requests to THIS connection (its authenticated identity) and calls THIS network's service
+                            assert(h0.send_stream.codec == h0.recv_stream.codec && (this.config.max_frame_size is Some ==> h0.send_stream.codec.max == this.config.max_frame_size->Some_0)); // @OBL InboundRequestHandler::start::accept_loop::handler_uses_configured_limit [C15] and frames both directions with the configured maximum frame size''', 'after', False)],
+                  spec='''
+    ensures
+        from_connection(close_reason, this.connection), // @OBL InboundRequestHandler::start::accept_loop::ends_only_on_connection_error [C06,C09] the accept loop ends only when the connection itself reports an error (closed, timed out, reset): nothing carried by a stream, a unidirectional stream or a datagram, and no failed request, ends it
+''',
+                  prose='lifted loop verifies: no panic unless a handler task panicked (the `panic!` branch for a JoinError that is neither a cancellation nor a panic is unreachable), every callee precondition holds')
     return t
